@@ -14,11 +14,16 @@ VARIABLES l,        \* next line of Log
           ep,       \* id of the current episode
           live,     \* FALSE after a failure / crash: skip to the next episode
           dev, stream, seq,     \* specification state of the encoder
-          mon       \* C09 monitor: counter of the last frame observed (0 after set id / restart)
+          mon,      \* C09 monitor: counter of the last frame observed (0 after set id / restart)
+          ncalls,   \* encode calls so far in this episode
+          cnt       \* non-vacuity counters
 
-vars == << l, ep, live, dev, stream, seq, mon >>
+vars == << l, ep, live, dev, stream, seq, mon, ncalls, cnt >>
 
-Init == l = 1 /\ ep = "" /\ live = FALSE /\ dev = 0 /\ stream = 0 /\ seq = 0 /\ mon = 0
+Cnt0 == [calls |-> 0, segmented_calls |-> 0, aggregated_calls |-> 0, mixed_type_calls |-> 0,
+         wrap_calls |-> 0, later_segmented_calls |-> 0, padded_calls |-> 0, roundtrips |-> 0, frames |-> 0]
+
+Init == l = 1 /\ ep = "" /\ live = FALSE /\ dev = 0 /\ stream = 0 /\ seq = 0 /\ mon = 0 /\ ncalls = 0 /\ cnt = Cnt0
 
 Ev == Log[l]
 
@@ -37,27 +42,50 @@ EncodeFails(e) ==
    \cup (IF inDom /\ ~SegRules(batch, ctx, frames) THEN {"C08"} ELSE {})
    \cup (IF inDom /\ ~CounterRule(mon, dev, stream, batch, frames, e.seq, e.dev, e.stream) THEN {"C09"} ELSE {})
    \cup (IF inDom /\ Has(e, "fresh") /\ ~SameUpToShift(frames, e.fresh) THEN {"C10"} ELSE {})
+   \cup (IF Has(e, "decoded") /\ InC01Domain(batch, ctx) /\ ~RoundTripOK(batch, dev, stream, e.decoded) THEN {"C01"} ELSE {})
    \cup (IF inDom /\ (frames # exp.frames \/ e.seq # exp.seq) THEN {"NC"} ELSE {})
+
+(* a call that did not return: every property whose domain contains the call  *)
+CrashFails(e) ==
+    IF ~Has(e, "during") THEN {"CRASH"}
+    ELSE LET op == e.during IN
+         IF op.op = "encode" THEN
+            {"CRASH"} \cup (IF InC07Domain(op.batch, op.ctx) THEN {"C07", "C08", "C09", "C10"} ELSE {})
+                      \cup (IF InC01Domain(op.batch, op.ctx) THEN {"C01"} ELSE {})
+         ELSE {"CRASH", "C09"}
 
 LastSeq(frames, dflt) ==
     IF frames # << >> /\ Len(frames[Len(frames)]) >= 8 THEN HdrOf(frames[Len(frames)]).seq ELSE dflt
+
+Bump(c, e) ==
+    LET nseg == Cardinality({x \in 1..Len(e.batch) : ~Fits(e.batch[x], e.ctx)})
+        nfr  == Len(e.frames) IN
+    [c EXCEPT !.calls = @ + 1,
+              !.frames = @ + nfr,
+              !.segmented_calls = @ + (IF nseg > 0 THEN 1 ELSE 0),
+              !.later_segmented_calls = @ + (IF nseg > 0 /\ ncalls > 0 THEN 1 ELSE 0),
+              !.aggregated_calls = @ + (IF Len(e.batch) - nseg > nfr THEN 1 ELSE 0) ,
+              !.mixed_type_calls = @ + (IF \E x \in 1..Len(e.batch) : e.batch[x].mt # e.batch[1].mt THEN 1 ELSE 0),
+              !.wrap_calls = @ + (IF seq + nfr >= 65536 THEN 1 ELSE 0),
+              !.padded_calls = @ + (IF \E k \in 1..nfr : Len(e.frames[k]) = e.ctx.min /\ e.ctx.min > 24 THEN 1 ELSE 0),
+              !.roundtrips = @ + (IF Has(e, "decoded") /\ InC01Domain(e.batch, e.ctx) THEN 1 ELSE 0)]
 
 Step ==
     /\ l <= Len(Log)
     /\ l' = l + 1
     /\ LET e == Ev IN
        CASE e.e = "begin" ->
-              /\ ep' = e.id /\ live' = TRUE
-              /\ UNCHANGED << dev, stream, seq, mon >>
+              /\ ep' = e.id /\ live' = TRUE /\ ncalls' = 0
+              /\ UNCHANGED << dev, stream, seq, mon, cnt >>
          [] e.e = "crash" ->
-              /\ Report(IF live THEN {"CRASH"} ELSE {})
+              /\ Report(IF live THEN CrashFails(e) ELSE {})
               /\ live' = FALSE
-              /\ UNCHANGED << ep, dev, stream, seq, mon >>
-         [] ~live -> UNCHANGED << ep, live, dev, stream, seq, mon >>
-         [] e.e = "enc.init" ->            \* fresh encoder, ids set, optionally warmed up to a counter
+              /\ UNCHANGED << ep, dev, stream, seq, mon, ncalls, cnt >>
+         [] e.e # "begin" /\ e.e # "crash" /\ ~live -> UNCHANGED << ep, live, dev, stream, seq, mon, ncalls, cnt >>
+         [] live /\ e.e = "enc.init" ->            \* fresh encoder, ids set, optionally warmed up to a counter
               /\ dev' = e.dev /\ stream' = e.stream /\ seq' = e.seq /\ mon' = e.seq
-              /\ UNCHANGED << ep, live >>
-         [] e.e \in {"enc.setDev", "enc.setStream", "enc.restart"} ->
+              /\ UNCHANGED << ep, live, ncalls, cnt >>
+         [] live /\ e.e \in {"enc.setDev", "enc.setStream", "enc.restart"} ->
               LET d  == IF e.e = "enc.setDev" THEN e.v ELSE dev
                   s  == IF e.e = "enc.setStream" THEN e.v ELSE stream
                   ok == e.dev = d /\ e.stream = s /\ e.seq = 0
@@ -65,16 +93,17 @@ Step ==
               IN /\ Report(fails)
                  /\ live' = (fails = {})
                  /\ dev' = d /\ stream' = s /\ seq' = 0 /\ mon' = 0
-                 /\ UNCHANGED ep
-         [] e.e = "enc.encode" ->
+                 /\ UNCHANGED << ep, ncalls, cnt >>
+         [] live /\ e.e = "enc.encode" ->
               LET fails == EncodeFails(e) IN
               /\ Report(fails)
               /\ live' = (fails \subseteq {"NC"})          \* a pure nonconformance note does not end the episode
               /\ seq' = e.seq /\ mon' = LastSeq(e.frames, mon)
+              /\ ncalls' = ncalls + 1 /\ cnt' = Bump(cnt, e)
               /\ UNCHANGED << ep, dev, stream >>
          [] OTHER ->
               /\ Report({"UNKNOWN-EVENT"})
-              /\ UNCHANGED << ep, live, dev, stream, seq, mon >>
+              /\ UNCHANGED << ep, live, dev, stream, seq, mon, ncalls, cnt >>
 
 Done == l > Len(Log) /\ UNCHANGED vars
 
@@ -83,6 +112,8 @@ Next == Step \/ Done
 Spec == Init /\ [][Next]_vars
 
 (* the whole log was consumed: checked by the driver from the DONE line *)
-Consumed == (l = Len(Log) + 1) => PrintT(<< "DONE", Len(Log) >>)
+Consumed == (l = Len(Log) + 1) =>
+                /\ \A k \in DOMAIN cnt : PrintT(<< "COUNT", k, cnt[k] >>)
+                /\ PrintT(<< "DONE", Len(Log) >>)
 
 =============================================================================
